@@ -54,7 +54,7 @@ add("C15", False, "E2-explorer", "explicit-state BFS to fixpoint over the query 
 add("C16", False, "E1-enumerator", "exhaustive enumeration programs (14 custom error functions) x pose alphabets for the numerical Jacobian, and graph families for optimum equality with 5-point-Jacobian twins",
     "Each numeric Jacobian is compared with a 5-point derivative at forward-difference accuracy; every graph of the family is optimised with numeric and with exact Jacobians and the optima compared.",
     "finite program family and alphabets; inside C05 radii", "DESIGN.md 4 C16")
-add("C17", False, "E1-enumerator", "exhaustive enumeration of all ordered pairs of an object pool x tolerances, all single-component perturbation magnitudes 1e-12..1e3 x tol, all discrete differences",
+add("C17", True, "E1-enumerator", "exhaustive enumeration of all ordered pairs of an object pool x tolerances, all single-component perturbation magnitudes 1e-12..1e3 x tol, all discrete differences",
     "equals must never raise, be True for copies/sub-tolerance, False for discrete or super-tolerance differences, symmetric outside the band.",
     "pool of well-formed objects as stated", "DESIGN.md 4 C17")
 add("C18", True, "E1-enumerator", "complete enumeration of the product named by the property (edge kind x vertex count x endpoint pose types x measurement type x offset type x information shape x id present/absent x list order) vs documentation truth table",
